@@ -1483,6 +1483,17 @@ func genC18(o *out, r *Rng) {
 		emit("script S { foo(" + strings.Repeat("(", d) + "1" + strings.Repeat(")", d) + ") }")
 		emit("script S { " + strings.Repeat("while (flag(A)) { ", d) + "x")
 	}
+	// truncation at every CHARACTER inside nested parentheses of every collecting position (value(..), command arguments, case values,
+	// AutoVar arguments, table entries, constant values): the collecting loops must stop at the end of the input at any depth
+	// (appended at the end, without random draws: the stream of the cases above is unchanged)
+	for _, s := range []string{"script S { if (var(V) == value((1 + 2) * (3))) { a } }", "script S { foo((a, (b)), c) }", "script S { switch (var(V)) { case (1): a } }",
+		"script S { if (checkitem((I), (2)) == (3)) { a } }", "mapscripts M { T [ (A), (1): L ] }", "const C = (1 + (2))\nscript S { f(C) }", "script S { while (var(V) >= value(((1)))) { b } }",
+		"script S { do { a } while (flag((F))) }", "mart M { (A) B }", "movement Mv { a * (2) }", "script S { x(moves(a * (2)), format((\"t\"))) }"} {
+		for i := 0; i <= len(s); i++ {
+			o.add(E2E(s[:i], Opts{Opt: i%2 == 0, Sw: defSw}))
+			o.add(E2E(s[:i], Opts{Opt: i%2 == 0, Sw: defSw, Lint: true}))
+		}
+	}
 }
 
 func genC19(o *out, r *Rng) {
